@@ -524,6 +524,15 @@ package types
 //@   prop C20
 //@   modifies ci
 //@   ensures @id-part-exact-length result == nil ==> len(b) >= 66 && b[len(b)-66] == 58 && b[len(b)-65] == 58
+// an unlock key's text form is <algorithm>:<hex key>; the key never contains a colon, so the
+// separator is the LAST colon of the input
+//@ func (*Specifier).UnmarshalText
+//@   trusted
+//@   modifies s
+//@ func (*UnlockKey).UnmarshalText
+//@   prop C20
+//@   modifies uk
+//@   ensures @key-follows-last-colon result == nil ==> len(b) >= 1 + 2 * len(uk.Key) && b[len(b) - 1 - 2 * len(uk.Key)] == 58 && (forall j in 0..len(b) :: j > len(b) - 1 - 2 * len(uk.Key) ==> b[j] != 58)
 //@ func (*Address).UnmarshalText
 //@   prop C20
 //@   modifies a
